@@ -822,7 +822,12 @@ def valid_line(rng, scheme, chrom=None, start=None):
 
 
 BAD_FIELDS = ["", "x y", "-1", "0", "1.5", "NaN", "é", "a\rb", "a\nb", "\x00", " ", "1e3", "None", "chr1 ", "١٢",
-              "0x10", "1_000", "+5", " 7 ", "99999999999999999999999", "TRUE", "a;b;", ";"]
+              "0x10", "1_000", "+5", " 7 ", "99999999999999999999999", "TRUE", "a;b;", ";",
+              "12%", "5%d", "%s", "100%(SNP)s", "%", "%%", "{", "}", "{0}", "{x}", "a\\b", "\\", "'", '"', "it's", "`"]
+# texts with characters that matter to message formatting (%, braces, backslash, quotes)
+FORMAT_TEXTS = ["12%", "5%d", "%s", "100%(SNP)s", "%", "{", "}", "{0}", "{error}", "a\\b", "\\n", "'", '"', "'%s'"]
+# chromosome / position boundary texts (typed columns turn "0", "00", "-0" into the int 0)
+ZERO_TEXTS = ["0", "00", "-0", "", "000", "+0", " 0"]
 PLAIN_NAMESETS = [
     ["Chromosome", "Start_Position", "End_Position"],
     ["Tumor_Sample_Barcode", "Matched_Norm_Sample_Barcode", "Chromosome", "Start_Position", "End_Position"],
@@ -972,6 +977,59 @@ def gen_reader_case(rng, stream):
                       "flavour": flavour, "order": order, "contigs": contigs is not None, "defect": defect}}
 
 
+def _rejecting_columns(scheme, text):
+    """names of columns of the scheme whose class fails to build the text (asked of the real classes)"""
+    out = []
+    for n in scheme.column_names():
+        cls = scheme.column_class(n)
+        try:
+            cls.build(name=n, value=text, column_index=0)
+        except Exception:  # noqa
+            out.append(n)
+    return out
+
+
+def typed_special_cases():
+    """whole files under the built-in 34-column scheme, one data line carrying (a) a text with %, braces,
+    backslash or quotes in a column whose class rejects it, (b) zero-like texts in Chromosome / Start / End
+    under each declared sort order, with and without contig lists that contain "0" """
+    import random
+    rng = random.Random(11)
+    sch = builtin_scheme("gdc-1.0.0")
+    names = sch.column_names()
+    col = "\t".join(names)
+    out = []
+
+    def shape(defect, order=None, contigs=False):
+        return {"stream": "typed-special", "H": 1, "col": True, "data": 2, "flavour": "basic", "order": order,
+                "contigs": contigs, "defect": defect}
+
+    for t in FORMAT_TEXTS:
+        rej = _rejecting_columns(sch, t)
+        for n in rej[:3] + ([rng.choice(rej)] if rej else []):
+            good = valid_line(rng, sch, chrom="chr1", start=10).split("\t")
+            bad = list(good)
+            bad[names.index(n)] = t
+            out.append({"lines": ["#version gdc-1.0.0", col, "\t".join(good), "\t".join(bad)], "override": None,
+                        "shape": shape("format-text")})
+    ci, si, ei = names.index("Chromosome"), names.index("Start_Position"), names.index("End_Position")
+    for order in ("Coordinate", "BarcodesAndCoordinate", "Unsorted"):
+        for contigs in (None, "1,0", "0,1,X", "0", "00,0"):
+            hl = ["#version gdc-1.0.0", "#sort.order " + order] + (["#contigs " + contigs] if contigs else [])
+            for z in ZERO_TEXTS:
+                for first in ("1", z):
+                    rows = []
+                    for chrom, pos in ((first, "5"), (z, "5"), ("1", z)):
+                        f = valid_line(rng, sch, chrom="1", start=5).split("\t")
+                        f[ci] = chrom
+                        f[si] = pos
+                        f[ei] = pos
+                        rows.append("\t".join(f))
+                    out.append({"lines": hl + [col] + rows, "override": None,
+                                "shape": shape("zero-text", order, contigs is not None)})
+    return out
+
+
 def reader_boundary_cases():
     """fixed file shapes: every H in 0..4 x column line absent / last line / followed by data"""
     out = []
@@ -1110,3 +1168,95 @@ def schemes_wf_obligation():
         bad.append("NoRestrictionsScheme")
     return ("schemes-have-distinct-column-names", not bad, "checked %d registry schemes and NoRestrictionsScheme; offenders: %r"
             % (len(registry()), bad))
+
+
+# ------------------------------------------------------------------ header edited through the MutableMapping API
+def _apply_hop(h, op):
+    """op: ["set", key, value] with value ["t", text] | ["o", name, contigs or None] | ["c", [names]];
+    ["del", key] | ["pop", key] | ["clear"] | ["popitem"]"""
+    from maflib.header import MafHeaderRecord, MafHeaderSortOrderRecord, MafHeaderContigRecord
+    t = op[0]
+    if t == "set":
+        v = op[2]
+        if v[0] == "t":
+            rec = MafHeaderRecord(key=op[1], value=v[1])
+        elif v[0] == "o":
+            rec = MafHeaderSortOrderRecord(value=v[1], contigs=(list(v[2]) if v[2] is not None else None))
+        else:
+            rec = MafHeaderContigRecord(value=list(v[1]))
+        h[op[1]] = rec
+    elif t == "del":
+        del h[op[1]]
+    elif t == "pop":
+        h.pop(op[1])
+    elif t == "clear":
+        h.clear()
+    else:
+        h.popitem()
+
+
+def _fresh_view(h):
+    """the same pragmas parsed afresh from str(header): what accessors and checks must say"""
+    from maflib.header import MafHeader
+    text = str(h)
+    f = MafHeader.from_lines(text.split("\n") if len(h) else [], validation_stringency=py_mode("Silent"))
+    so = f.sort_order()
+    try:
+        sch = ["ok", c_scheme_id(f.scheme())]
+    except Exception as e:  # noqa
+        sch = ["exc", c_exn(e)]
+    return {"version": f.version(), "annotation": f.annotation(), "contigs": f.contigs(), "order": so.name(),
+            "scheme": sch, "errs": c_errs(f.validation_errors), "print": [str(f[k]) for k in f]}
+
+
+def impl_header_ops(hlines, ops, derive):
+    ensure_repo()
+    from maflib.header import MafHeader
+    from maflib.reader import MafReader
+    if derive:
+        rd = MafReader(lines=list(hlines) + ["c1\tc2"], validation_stringency=py_mode("Silent"))
+        h = MafHeader.from_reader(rd)
+        h.validate()
+    else:
+        h = MafHeader.from_lines(list(hlines), validation_stringency=py_mode("Silent"))
+    out = {"start": c_header(h), "steps": [], "_fresh": []}
+    for op in ops:
+        exc = None
+        try:
+            _apply_hop(h, op)
+        except Exception as e:  # noqa
+            exc = c_exn(e)
+        h.validate()
+        out["steps"].append({"exc": exc, "h": c_header(h)})
+        out["_fresh"].append(_fresh_view(h))
+    return out
+
+
+def wire_header_ops(hlines, ops):
+    ensure_repo()
+    reg = [[S(v), S(a), B(nr), ([[]] if nr else [])] for (v, a, nr, _) in registry()]
+    w = []
+    for op in ops:
+        t = op[0]
+        if t == "set":
+            v = op[2]
+            if v[0] == "t":
+                mv = [0, S(v[1])]
+            elif v[0] == "o":
+                mv = [1, S(v[1]), OPT(v[2], lambda cs: [S(c) for c in cs])]
+            else:
+                mv = [2, [S(c) for c in v[1]]]
+            w.append([0, S(op[1]), mv])
+        elif t in ("del", "pop"):
+            w.append([1, S(op[1])])
+        elif t == "clear":
+            w.append([2])
+        else:
+            w.append([3])
+    return [6, [S(l) for l in hlines], reg, w]
+
+
+def dec_header_ops(sx):
+    start, steps = sx
+    return {"start": d_header(start),
+            "steps": [{"exc": (d_exn(e[0]) if e else None), "h": d_header(h)} for e, h in steps]}
